@@ -192,12 +192,12 @@ Proof.
   assert (Hr : takes_required xv_cfg 1) by reflexivity.
   assert (Htail : xspell xv_cfg [GFree [50%N]; GFree [45; 51]%N] [[50]; [45; 45]; [45; 51]]%N).
   { apply gsp_free; [cbn; split; [discriminate|intros [_ H]; discriminate]|].
-    apply (gsp_ddash nat _ _ _ _ [[45; 51]%N]). repeat constructor. }
+    apply (gsp_ddash nat _ _ _ _ _ [[45; 51]%N]). repeat constructor. }
   split; [|split].
-  - apply (gsp_flags nat _ _ _ _ [(0, 118%N)] _ _); [discriminate|repeat constructor; apply Hv|].
-    apply (gsp_short_sep nat _ _ _ _ [] 1 108%N [49%N]); auto; [constructor|].
+  - apply (gsp_flags nat _ _ _ _ _ [(0, 118%N)] _ _); [discriminate|repeat constructor; apply Hv|].
+    apply (gsp_short_sep nat _ _ _ _ _ [] 1 108%N [49%N]); auto; [constructor|].
     cbn; split; [discriminate|intros [_ H]; discriminate].
-  - apply (gsp_glued nat _ _ _ _ [(0, 118%N)] 1 108%N [49%N]); auto; [repeat constructor; apply Hv|discriminate].
+  - apply (gsp_glued nat _ _ _ _ _ [(0, 118%N)] 1 108%N [49%N]); auto; [repeat constructor; apply Hv|discriminate].
   - eexists. split; vm_compute; reflexivity.
 Qed.
 
@@ -240,4 +240,55 @@ Example C01_nonvacuous_order :
 Proof.
   eexists. eexists. split; [vm_compute; reflexivity|]. split; [vm_compute; reflexivity|]. split; [reflexivity|].
   apply Permutation_rev.
+Qed.
+
+(* ------------------------------------------------------------------ *)
+(** * Arguments with an optional value (level counters) in the extended grammar
+
+    [xspell] also holds: the key alone when no value follows (end of the line or
+    a key word), the same key several times behind one dash (-vvv), the key
+    with its value (--verbose=3, --verbose 3, -v 3).  The theorems
+    C01_spelling_independent_with_free_values and
+    C01_words_are_the_fold_of_their_uses above quantify over these spellings
+    too.  Non-vacuity: a level counter -v/--verbose and a flag -x; the line
+    [v; v; v; x] spelled  -vvv -x  and  -v --verbose -v -x ; the line
+    [v=3; x] spelled  -v 3 -x  and  --verbose=3 -x . *)
+Definition lc_cfg : cfg :=
+  {| args := [{| a_key := {| kc := 118%N; kw := [118; 101; 114; 98; 111; 115; 101]%N |}; a_kind := DLevel;
+                 a_vmode := VMOptional; a_mand := false; a_multi := false; a_sep := 44%N; a_clear := false;
+                 a_sort := false; a_uniq := false; a_uniq_err := false; a_checks := []; a_fmts := [];
+                 a_card := CardNone; a_excl := []; a_req := []; a_depr := false; a_mix := false |};
+              ex_flag (key_of_char 120%N)];
+     gcons := []; abbr := true; fixed_notify := true |}.
+Definition w_verbose : str := [118; 101; 114; 98; 111; 115; 101]%N.
+
+Example C01_nonvacuous_optional_value :
+  xspell lc_cfg [GFlag 0; GFlag 0; GFlag 0; GFlag 1] [[45; 118; 118; 118]; [45; 120]]%N /\
+  xspell lc_cfg [GFlag 0; GFlag 0; GFlag 0; GFlag 1] [[45; 118]; [45; 45] ++ w_verbose; [45; 118]; [45; 120]]%N /\
+  xspell lc_cfg [GVal 0 [51%N]; GFlag 1] [[45; 118]; [51]; [45; 120]]%N /\
+  xspell lc_cfg [GVal 0 [51%N]; GFlag 1] [[45; 45] ++ w_verbose ++ [61; 51]; [45; 120]]%N /\
+  (exists s, eval_arguments lc_cfg [VLevel 0 false; VBool false] [] None [[45; 118; 118; 118]; [45; 120]]%N = Ok s /\
+             map val (arts s) = [VLevel 3 false; VBool true]) /\
+  (exists s, eval_arguments lc_cfg [VLevel 0 false; VBool false] [] None [[45; 118]; [51]; [45; 120]]%N = Ok s /\
+             map val (arts s) = [VLevel 3 true; VBool true]).
+Proof.
+  assert (Hv : short_name lc_cfg 0 118%N) by (split; [discriminate|vm_compute; auto]).
+  assert (Hl : long_name lc_cfg 0 w_verbose).
+  { split; [discriminate|]. split; [reflexivity|]. eexists. split; vm_compute; reflexivity. }
+  assert (Ho : takes_optional lc_cfg 0) by reflexivity.
+  assert (Hx : xspell lc_cfg [GFlag 1] [[45; 120]%N]).
+  { apply (gsp_flags nat _ _ _ _ _ [(1, 120%N)] [] []); [discriminate| |constructor].
+    repeat constructor; cbn; try discriminate; vm_compute; auto. }
+  assert (Hkw : nva [[45; 120]%N]) by (exists 120%N, []; split; [reflexivity|left; discriminate]).
+  split; [|split; [|split; [|split; [|split]]]].
+  - apply (gsp_short_opt_rep nat _ _ _ _ _ 0 118%N 2 [GFlag 1] [[45; 120]%N]); auto.
+  - apply (gsp_short_opt_rep nat _ _ _ _ _ 0 118%N 0); auto.
+    + exists DASH, w_verbose. split; [reflexivity|right; discriminate].
+    + apply gsp_long_opt_none; auto.
+      * exists 118%N, []. split; [reflexivity|left; discriminate].
+      * apply (gsp_short_opt_rep nat _ _ _ _ _ 0 118%N 0 [GFlag 1] [[45; 120]%N]); auto.
+  - apply gsp_short_opt_sep; auto. cbn. split; [discriminate|intros [_ H]; discriminate].
+  - apply gsp_long_opt_eq; auto.
+  - eexists. split; vm_compute; reflexivity.
+  - eexists. split; vm_compute; reflexivity.
 Qed.
